@@ -1,5 +1,5 @@
 (* C16 — proofs about the reuse machines of Model/Reuse.v. *)
-From CE Require Import Model.Reuse Model.Rules.
+From CE Require Import Model.Rules Model.Reuse.
 From CE Require Model.Cbe.
 From Coq Require Import ZifyN ZifyNat ZifyBool.
 Open Scope N_scope.
@@ -161,3 +161,714 @@ Example cbe_enc_refuted_bytes :
              [EBeginDoc; EVersion 0; ENull; EEndDoc] = (None, [129; 0; 125; 147]) /\
   run_fresh Cbe.enc_init cbe_enc_call [EBeginDoc; EVersion 0; ENull; EEndDoc] = (None, [129; 0; 125]).
 Proof. vm_compute. split; reflexivity. Qed.
+
+(* ------------------------------------------------------------------ *)
+(* 5. Type caches                                                       *)
+(* ------------------------------------------------------------------ *)
+
+(* induction principle for the nested type *)
+Section TyInd.
+  Variable P : ty -> Prop.
+  Hypothesis Hleaf : forall n, P (TLeaf n).
+  Hypothesis Hbad : forall n, P (TBad n).
+  Hypothesis Hcomp : forall n cs, Forall (fun c => P (snd c)) cs -> P (TComp n cs).
+  Hypothesis Hdyn : forall t, P t -> P (TDyn t).
+  Fixpoint ty_ind' (t : ty) : P t :=
+    match t with
+    | TLeaf n => Hleaf n
+    | TBad n => Hbad n
+    | TComp n cs =>
+        Hcomp n cs ((fix go (l : list (bool * ty)) : Forall (fun c => P (snd c)) l :=
+                       match l with
+                       | [] => Forall_nil _
+                       | c :: r => Forall_cons c (ty_ind' (snd c)) (go r)
+                       end) cs)
+    | TDyn u => Hdyn u (ty_ind' u)
+    end.
+End TyInd.
+
+Fixpoint comps_eqb (l m : list (bool * ty)) : bool :=
+  match l, m with
+  | [], [] => true
+  | (f, t) :: l', (g, u) :: m' => Bool.eqb f g && ty_eqb t u && comps_eqb l' m'
+  | _, _ => false
+  end.
+
+Lemma ty_eqb_comp x cs y ds : ty_eqb (TComp x cs) (TComp y ds) = (x =? y) && comps_eqb cs ds.
+Proof.
+  simpl. apply f_equal. revert ds. induction cs as [|[f t] cs IH]; intros [|[g u] ds]; simpl; auto.
+Qed.
+
+Lemma ty_eqb_eq : forall a b, ty_eqb a b = true <-> a = b.
+Proof.
+  induction a as [n|n|n cs IH|t IH] using ty_ind'; intros b.
+  - destruct b; simpl; try (split; [discriminate|discriminate]). rewrite N.eqb_eq. split; congruence.
+  - destruct b; simpl; try (split; [discriminate|discriminate]). rewrite N.eqb_eq. split; congruence.
+  - destruct b as [m|m|m ds|u]; try (simpl; split; discriminate).
+    rewrite ty_eqb_comp, andb_true_iff, N.eqb_eq.
+    assert (E : comps_eqb cs ds = true <-> cs = ds).
+    { clear n m. revert ds. induction IH as [|[f t] cs Ht _ IHcs]; intros [|[g u] ds]; simpl;
+        try (split; [discriminate|discriminate]); [tauto|].
+      rewrite !andb_true_iff, Bool.eqb_true_iff, IHcs. simpl in Ht. rewrite Ht.
+      split; [intros [[-> ->] ->]; reflexivity | intro E; inversion E; auto]. }
+    rewrite E. split; [intros [-> ->]; reflexivity | intro H; inversion H; auto].
+  - destruct b; simpl; try (split; discriminate). rewrite IH. split; congruence.
+Qed.
+
+Lemma ty_eqb_refl a : ty_eqb a a = true.
+Proof. apply ty_eqb_eq. reflexivity. Qed.
+
+(* ---- lookup / set_ready ---- *)
+Lemma lookup_cons k k' st c :
+  lookup k ((k', st) :: c) = if ty_eqb k k' then Some st else lookup k c.
+Proof. reflexivity. Qed.
+
+Lemma lookup_here k st c : lookup k ((k, st) :: c) = Some st.
+Proof. simpl. rewrite ty_eqb_refl. reflexivity. Qed.
+
+Lemma lookup_other k k' st c : k <> k' -> lookup k ((k', st) :: c) = lookup k c.
+Proof.
+  intro H. simpl. destruct (ty_eqb k k') eqn:E; [apply ty_eqb_eq in E; contradiction | reflexivity].
+Qed.
+
+Lemma lookup_set_ready_same k c : lookup k c <> None -> lookup k (set_ready k c) = Some true.
+Proof.
+  induction c as [|[k' st] c IH]; simpl; intro H; [contradiction|].
+  destruct (ty_eqb k k') eqn:E; simpl; rewrite E; [reflexivity | apply IH, H].
+Qed.
+
+Lemma lookup_set_ready_other k k' c : k' <> k -> lookup k' (set_ready k c) = lookup k' c.
+Proof.
+  intro H. induction c as [|[k2 st] c IH]; simpl; [reflexivity|].
+  destruct (ty_eqb k k2) eqn:E; simpl.
+  - apply ty_eqb_eq in E. subst k2.
+    destruct (ty_eqb k' k) eqn:E2; [apply ty_eqb_eq in E2; contradiction | reflexivity].
+  - rewrite IH. reflexivity.
+Qed.
+
+Lemma lookup_set_ready_mono k u c : lookup u c = Some true -> lookup u (set_ready k c) = Some true.
+Proof.
+  intro H. destruct (ty_eqb u k) eqn:E.
+  - apply ty_eqb_eq in E. subst u. apply lookup_set_ready_same. congruence.
+  - rewrite lookup_set_ready_other; [exact H|]. intro; subst. rewrite ty_eqb_refl in E. discriminate.
+Qed.
+
+(* ---- sizes ---- *)
+Fixpoint tsize (t : ty) : nat :=
+  match t with
+  | TLeaf _ | TBad _ => 1
+  | TComp _ cs => S (fold_right (fun c acc => tsize (snd c) + acc)%nat O cs)
+  | TDyn u => S (tsize u)
+  end.
+
+Definition is_dyn (t : ty) : bool := match t with TDyn _ => true | _ => false end.
+
+Lemma tsize_comp_lt n cs u : In u (map snd cs) -> (tsize u < tsize (TComp n cs))%nat.
+Proof.
+  simpl. induction cs as [|[f t] cs IH]; simpl; [tauto|].
+  intros [->|H]; [lia | specialize (IH H); lia].
+Qed.
+
+Lemma erase_comp n cs : erase (TComp n cs) = TComp n (map (fun c => (false, erase (snd c))) cs).
+Proof. reflexivity. Qed.
+
+Lemma erase_comps_snd cs : map snd (map (fun c : bool * ty => (false, erase (snd c))) cs) = map (fun c => erase (snd c)) cs.
+Proof. rewrite map_map. reflexivity. Qed.
+
+Lemma is_dyn_erase t : is_dyn (erase t) = is_dyn t.
+Proof. destruct t; reflexivity. Qed.
+
+(* ---- the invariant ---- *)
+Definition extends (c c' : cache) : Prop := forall k st, lookup k c = Some st -> lookup k c' = Some st.
+
+Definition comps_ready (k : ty) (c : cache) : Prop :=
+  match k with
+  | TComp _ cs => forall u, In u (map snd cs) -> is_dyn u = true \/ lookup u c = Some true
+  | _ => True
+  end.
+
+(* P: keys whose generation is in progress (placeholder stored, WaitGroup not yet released) *)
+Definition GInv (P : list ty) (c : cache) : Prop :=
+  forall k st, lookup k c = Some st ->
+    (st = false /\ In k P) \/ (st = true /\ supported k = true /\ comps_ready k c).
+
+Lemma extends_refl c : extends c c.
+Proof. intros k st H; exact H. Qed.
+Lemma extends_trans a b c : extends a b -> extends b c -> extends a c.
+Proof. intros H1 H2 k st H. apply H2, H1, H. Qed.
+
+Lemma comps_ready_mono k c c' : (forall u, lookup u c = Some true -> lookup u c' = Some true) ->
+  comps_ready k c -> comps_ready k c'.
+Proof.
+  intros M H. destruct k; simpl in *; auto. intros u Hu. destruct (H u Hu) as [D|R]; auto.
+Qed.
+
+Lemma supported_erase_comp n cs :
+  supported (erase (TComp n cs)) = forallb (fun c => supported (erase (snd c))) cs.
+Proof.
+  simpl. induction cs as [|c cs IH]; simpl; [reflexivity|]. rewrite IH. reflexivity.
+Qed.
+
+(* ---- gen ---- *)
+Fixpoint gen_list (c : cache) (l : list (bool * ty)) : cache * bool :=
+  match l with
+  | [] => (c, true)
+  | (_, u) :: l' => let '(c', ok) := gen c u in if ok then gen_list c' l' else (c', false)
+  end.
+
+Lemma gen_comp_unfold c n cs :
+  gen c (TComp n cs) =
+  let k := erase (TComp n cs) in
+  match lookup k c with
+  | Some _ => (c, true)
+  | None =>
+      let c1 := (k, false) :: c in
+      let '(c2, ok) := gen_list c1 cs in
+      if ok then (set_ready k c2, true) else (c2, false)
+  end.
+Proof. reflexivity. Qed.
+
+Definition present (t : ty) (c : cache) : Prop := is_dyn t = true \/ lookup (erase t) c = Some true.
+
+Definition gen_ok (t : ty) : Prop :=
+  forall c P, GInv P c -> (forall p, In p P -> (tsize (erase t) < tsize p)%nat) ->
+    extends c (fst (gen c t)) /\
+    snd (gen c t) = supported (erase t) /\
+    (snd (gen c t) = true -> GInv P (fst (gen c t)) /\ present t (fst (gen c t))).
+
+Lemma GInv_cached_ready P c k st :
+  GInv P c -> (forall p, In p P -> (tsize k < tsize p)%nat) -> lookup k c = Some st ->
+  st = true /\ supported k = true.
+Proof.
+  intros G S L. destruct (G k st L) as [[_ I]|[-> [Sp _]]]; [|auto].
+  specialize (S k I). lia.
+Qed.
+
+Lemma GInv_push P c k : GInv P c -> lookup k c = None -> GInv (k :: P) ((k, false) :: c).
+Proof.
+  intros G N k' st L. rewrite lookup_cons in L. destruct (ty_eqb k' k) eqn:E.
+  - apply ty_eqb_eq in E. subst k'. inversion L; subst. left. split; [reflexivity | left; reflexivity].
+  - destruct (G k' st L) as [[-> I]|[-> [Sp R]]].
+    + left. split; [reflexivity | right; exact I].
+    + right. repeat split; auto. eapply comps_ready_mono; [|exact R].
+      intros u Hu. rewrite lookup_cons. destruct (ty_eqb u k) eqn:E2; [|exact Hu].
+      apply ty_eqb_eq in E2. subst u. congruence.
+Qed.
+
+Lemma gen_leaf_ok n : gen_ok (TLeaf n).
+Proof.
+  intros c P G S. simpl. destruct (lookup (TLeaf n) c) as [st|] eqn:L; simpl.
+  - destruct (GInv_cached_ready P c _ _ G S L) as [-> _].
+    split; [apply extends_refl|split; [reflexivity|intros _; split; [exact G|right; exact L]]].
+  - rewrite N.eqb_refl. simpl. split; [|split; [reflexivity|intros _; split]].
+    + intros k st H. rewrite lookup_cons. destruct (ty_eqb k (TLeaf n)) eqn:E; [|exact H].
+      apply ty_eqb_eq in E. subst k. congruence.
+    + intros k st H. rewrite lookup_cons in H. destruct (ty_eqb k (TLeaf n)) eqn:E.
+      * apply ty_eqb_eq in E. subst k. inversion H; subst. right. repeat split; simpl; auto.
+      * destruct (G k st H) as [[-> I]|[-> [Sp R]]]; [left; auto|right; repeat split; auto].
+        eapply comps_ready_mono; [|exact R]. intros u Hu. rewrite lookup_cons.
+        destruct (ty_eqb u (TLeaf n)) eqn:E2; [|exact Hu]. apply ty_eqb_eq in E2. subst u. congruence.
+    + right. simpl. rewrite N.eqb_refl. reflexivity.
+Qed.
+
+Lemma gen_bad_ok n : gen_ok (TBad n).
+Proof.
+  intros c P G S. simpl. destruct (lookup (TBad n) c) as [st|] eqn:L; simpl.
+  - destruct (GInv_cached_ready P c _ _ G S L) as [_ F]. simpl in F. discriminate.
+  - split; [|split; [reflexivity|discriminate]].
+    intros k st H. rewrite lookup_cons. destruct (ty_eqb k (TBad n)) eqn:E; [|exact H].
+    apply ty_eqb_eq in E. subst k. congruence.
+Qed.
+
+Lemma gen_dyn_ok t : gen_ok (TDyn t).
+Proof.
+  intros c P G S. simpl. split; [apply extends_refl|split; [reflexivity|intros _; split; [exact G|left; reflexivity]]].
+Qed.
+
+Lemma present_extends t c c' : extends c c' -> present t c -> present t c'.
+Proof. intros E [D|L]; [left; exact D | right; apply E, L]. Qed.
+
+Lemma gen_list_ok l : Forall (fun c => gen_ok (snd c)) l ->
+  forall c P, GInv P c ->
+    (forall u, In u (map snd l) -> forall p, In p P -> (tsize (erase u) < tsize p)%nat) ->
+    extends c (fst (gen_list c l)) /\
+    snd (gen_list c l) = forallb (fun c => supported (erase (snd c))) l /\
+    (snd (gen_list c l) = true ->
+       GInv P (fst (gen_list c l)) /\ forall u, In u (map snd l) -> present u (fst (gen_list c l))).
+Proof.
+  induction 1 as [|[f u] l Hu _ IH]; intros c P G S; simpl.
+  - split; [apply extends_refl|split; [reflexivity|intros _; split; [exact G|intros u []]]].
+  - simpl in Hu. destruct (Hu c P G (fun p => S u (or_introl eq_refl) p)) as [E1 [O1 R1]].
+    destruct (gen c u) as [c' ok] eqn:Eg. simpl in E1, O1, R1. subst ok.
+    destruct (supported (erase u)) eqn:Su; simpl.
+    + destruct (R1 eq_refl) as [G1 P1].
+      destruct (IH c' P G1 (fun v Hv => S v (or_intror Hv))) as [E2 [O2 R2]].
+      split; [eapply extends_trans; eassumption|]. split; [exact O2|].
+      intro H. destruct (R2 H) as [G2 P2]. split; [exact G2|].
+      intros v [<-|Hv]; [eapply present_extends; eassumption | apply P2, Hv].
+    + split; [exact E1|split; [reflexivity|discriminate]].
+Qed.
+
+Lemma gen_comp_ok n cs : Forall (fun c => gen_ok (snd c)) cs -> gen_ok (TComp n cs).
+Proof.
+  intros F c P G S. rewrite gen_comp_unfold. set (k := erase (TComp n cs)) in *. cbv zeta.
+  destruct (lookup k c) as [st|] eqn:L.
+  - destruct (GInv_cached_ready P c _ _ G S L) as [-> Sp]. simpl.
+    split; [apply extends_refl|split; [symmetry; exact Sp|intros _; split; [exact G|right; exact L]]].
+  - assert (G1 := GInv_push P c k G L).
+    assert (S1 : forall u, In u (map snd cs) -> forall p, In p (k :: P) -> (tsize (erase u) < tsize p)%nat).
+    { intros u Hu p [<-|Hp].
+      - unfold k. rewrite erase_comp. apply tsize_comp_lt. rewrite erase_comps_snd.
+        apply in_map_iff. apply in_map_iff in Hu. destruct Hu as [x [<- Hx]]. exists x. split; auto.
+      - specialize (S p Hp). assert ((tsize (erase u) < tsize k)%nat); [|lia].
+        unfold k. rewrite erase_comp. apply tsize_comp_lt. rewrite erase_comps_snd.
+        apply in_map_iff. apply in_map_iff in Hu. destruct Hu as [x [<- Hx]]. exists x. split; auto. }
+    destruct (gen_list_ok cs F _ _ G1 S1) as [E2 [O2 R2]].
+    destruct (gen_list ((k, false) :: c) cs) as [c2 ok] eqn:Eg. simpl in E2, O2, R2.
+    assert (Ec : extends c c2).
+    { intros k' st H. apply E2. rewrite lookup_other; [exact H|]. intro; subst. congruence. }
+    rewrite <- (supported_erase_comp n) in O2. fold k in O2. subst ok.
+    destruct (supported k) eqn:Sk; simpl.
+    + destruct (R2 eq_refl) as [G2 P2].
+      assert (Lk : lookup k c2 = Some false) by (apply E2, lookup_here).
+      split; [|split; [reflexivity|intros _; split]].
+      * intros k' st H. rewrite lookup_set_ready_other; [apply Ec, H|]. intro; subst. congruence.
+      * intros k' st H. destruct (ty_eqb k' k) eqn:E.
+        -- apply ty_eqb_eq in E. subst k'. rewrite lookup_set_ready_same in H by congruence.
+           inversion H; subst. right. split; [reflexivity|split; [exact Sk|]].
+           unfold k. rewrite erase_comp. simpl. rewrite erase_comps_snd. intros u Hu.
+           apply in_map_iff in Hu. destruct Hu as [x [<- Hx]].
+           destruct (P2 (snd x) (in_map snd _ _ Hx)) as [D|R].
+           ++ left. rewrite is_dyn_erase. exact D.
+           ++ right. apply lookup_set_ready_mono. exact R.
+        -- assert (N : k' <> k) by (intro; subst; rewrite ty_eqb_refl in E; discriminate).
+           rewrite lookup_set_ready_other in H by exact N.
+           destruct (G2 k' st H) as [[-> [I|I]]|[-> [Sp R]]].
+           ++ congruence.
+           ++ left. auto.
+           ++ right. split; [reflexivity|split; [exact Sp|]].
+              eapply comps_ready_mono; [|exact R]. intros u Hu. apply lookup_set_ready_mono, Hu.
+      * right. apply lookup_set_ready_same. congruence.
+    + split; [exact Ec|split; [reflexivity|discriminate]].
+Qed.
+
+Lemma gen_all_ok : forall t, gen_ok t.
+Proof.
+  induction t using ty_ind'; auto using gen_leaf_ok, gen_bad_ok, gen_comp_ok, gen_dyn_ok.
+Qed.
+
+(* ---- visit ---- *)
+Fixpoint visit_list (dyn : bool) (c : cache) (l : list (bool * ty)) (tr : list N) : cache * cres * list N :=
+  match l with
+  | [] => (c, COk, tr)
+  | (reach, u) :: l' =>
+      if reach then
+        let '(c', r, tr') := visit dyn c u tr in
+        match r with COk => visit_list dyn c' l' tr' | _ => (c', r, tr') end
+      else visit_list dyn c l' tr
+  end.
+
+Lemma visit_comp_unfold dyn c n cs tr :
+  visit dyn c (TComp n cs) tr =
+  match lookup (erase (TComp n cs)) c with
+  | Some false => (c, CHang, tr)
+  | None => (c, CErr, tr)
+  | Some true => visit_list dyn c cs (tr ++ [n])
+  end.
+Proof.
+  simpl. destruct (lookup _ c) as [[|]|]; try reflexivity.
+  generalize (tr ++ [n]). generalize c. induction cs as [|[reach u] cs IH]; intros c0 tr0; [reflexivity|].
+  simpl. destruct reach; [|apply IH].
+  destruct (visit dyn c0 u tr0) as [[c' r] tr']. destruct r; try reflexivity. apply IH.
+Qed.
+
+(* what an instance whose cache holds no unreleased placeholder answers: a
+   function of the operation alone *)
+Fixpoint spec (dyn : bool) (t : ty) (tr : list N) : cres * list N :=
+  match t with
+  | TLeaf n => (COk, tr ++ [n])
+  | TBad _ => (CErr, tr)
+  | TComp n cs =>
+      (fix go (l : list (bool * ty)) (tr : list N) : cres * list N :=
+         match l with
+         | [] => (COk, tr)
+         | (reach, u) :: l' =>
+             if reach then
+               let '(r, tr') := spec dyn u tr in
+               match r with COk => go l' tr' | _ => (r, tr') end
+             else go l' tr
+         end) cs (tr ++ [n])
+  | TDyn inner =>
+      if dyn then (if supported (erase inner) then spec dyn inner tr else (CErr, tr)) else (COk, tr)
+  end.
+
+Fixpoint spec_list (dyn : bool) (l : list (bool * ty)) (tr : list N) : cres * list N :=
+  match l with
+  | [] => (COk, tr)
+  | (reach, u) :: l' =>
+      if reach then
+        let '(r, tr') := spec dyn u tr in
+        match r with COk => spec_list dyn l' tr' | _ => (r, tr') end
+      else spec_list dyn l' tr
+  end.
+Lemma spec_comp_unfold dyn n cs tr : spec dyn (TComp n cs) tr = spec_list dyn cs (tr ++ [n]).
+Proof.
+  simpl. generalize (tr ++ [n]). induction cs as [|[reach u] cs IH]; intros tr0; [reflexivity|].
+  simpl. destruct reach; [|apply IH].
+  destruct (spec dyn u tr0) as [r tr']. destruct r; try reflexivity. apply IH.
+Qed.
+
+Definition CInv (c : cache) : Prop := GInv [] c.
+
+Definition visit_ok (dyn : bool) (t : ty) : Prop :=
+  forall c tr, CInv c -> present t c ->
+    (snd (fst (visit dyn c t tr)), snd (visit dyn c t tr)) = spec dyn t tr /\
+    (snd (fst (visit dyn c t tr)) = COk ->
+       CInv (fst (fst (visit dyn c t tr))) /\ extends c (fst (fst (visit dyn c t tr)))).
+
+Lemma CInv_ready c k st : CInv c -> lookup k c = Some st ->
+  st = true /\ supported k = true /\ comps_ready k c.
+Proof. intros G L. destruct (G k st L) as [[_ []]|[-> R]]. auto. Qed.
+
+Lemma visit_list_ok dyn l : Forall (fun c => visit_ok dyn (snd c)) l ->
+  forall c tr, CInv c -> (forall u, In u (map snd l) -> present u c) ->
+    (snd (fst (visit_list dyn c l tr)), snd (visit_list dyn c l tr)) = spec_list dyn l tr /\
+    (snd (fst (visit_list dyn c l tr)) = COk ->
+       CInv (fst (fst (visit_list dyn c l tr))) /\ extends c (fst (fst (visit_list dyn c l tr)))).
+Proof.
+  induction 1 as [|[reach u] l Hu _ IH]; intros c tr G Pr; simpl.
+  - split; [reflexivity|intros _; split; [exact G|apply extends_refl]].
+  - destruct reach.
+    + simpl in Hu. destruct (Hu c tr G (Pr u (or_introl eq_refl))) as [E1 R1].
+      destruct (visit dyn c u tr) as [[c' r] tr'] eqn:Ev. simpl in E1, R1.
+      rewrite <- E1. destruct r; simpl; try (split; [reflexivity|discriminate]).
+      destruct (R1 eq_refl) as [G1 X1].
+      destruct (IH c' tr' G1 (fun v Hv => present_extends v c c' X1 (Pr v (or_intror Hv)))) as [E2 R2].
+      split; [exact E2|]. intro H. destruct (R2 H) as [G2 X2]. split; [exact G2|eapply extends_trans; eassumption].
+    + apply IH; [exact G|]. intros v Hv. apply Pr. right. exact Hv.
+Qed.
+
+Lemma visit_all_ok dyn : forall t, visit_ok dyn t.
+Proof.
+  induction t as [n|n|n cs IH|t IH] using ty_ind'; intros c tr G Pr.
+  - destruct Pr as [D|L]; [discriminate|]. simpl in L. simpl. rewrite L. simpl.
+    split; [reflexivity|intros _; split; [exact G|apply extends_refl]].
+  - destruct Pr as [D|L]; [discriminate|]. simpl in L.
+    destruct (CInv_ready c _ _ G L) as [_ [F _]]. simpl in F. discriminate.
+  - destruct Pr as [D|L]; [discriminate|]. rewrite visit_comp_unfold, L, spec_comp_unfold.
+    destruct (CInv_ready c _ _ G L) as [_ [_ R]]. rewrite erase_comp in R. simpl in R.
+    rewrite erase_comps_snd in R.
+    apply visit_list_ok; [exact IH|exact G|].
+    intros u Hu. destruct (R (erase u)) as [D|L2].
+    + apply in_map_iff. apply in_map_iff in Hu. destruct Hu as [x [<- Hx]]. exists x. auto.
+    + left. rewrite is_dyn_erase in D. exact D.
+    + right. exact L2.
+  - simpl. destruct dyn.
+    + pose proof (gen_all_ok t c [] G (fun p (F : In p []) => match F with end)) as [E1 [O1 R1]].
+      destruct (gen c t) as [c1 ok] eqn:Eg. simpl in E1, O1, R1. subst ok.
+      destruct (supported (erase t)) eqn:St.
+      * destruct (R1 eq_refl) as [G1 P1]. destruct (IH c1 tr G1 P1) as [E2 R2].
+        split; [exact E2|]. intro H. destruct (R2 H) as [G2 X2].
+        split; [exact G2|eapply extends_trans; eassumption].
+      * simpl. split; [reflexivity|discriminate].
+    + simpl. split; [reflexivity|intros _; split; [exact G|apply extends_refl]].
+Qed.
+
+(* ---- one call ---- *)
+Definition cache_spec (dyn : bool) (t : ty) : cache_obs :=
+  if supported (erase t) then spec dyn t [] else (CErr, []).
+
+Lemma CInv_init : CInv cache_init.
+Proof. intros k st L. discriminate. Qed.
+
+Lemma cache_call_obs dyn c t : CInv c -> snd (cache_call dyn c t) = cache_spec dyn t.
+Proof.
+  intro G. unfold cache_call, cache_spec.
+  pose proof (gen_all_ok t c [] G (fun p (F : In p []) => match F with end)) as [E1 [O1 R1]].
+  destruct (gen c t) as [c1 ok] eqn:Eg. simpl in E1, O1, R1. subst ok.
+  destruct (supported (erase t)); [|reflexivity].
+  destruct (R1 eq_refl) as [G1 P1]. destruct (visit_all_ok dyn t c1 [] G1 P1) as [E2 _].
+  destruct (visit dyn c1 t []) as [[c2 r] tr]. exact E2.
+Qed.
+
+Lemma supported_erase : forall t, supported t = true -> supported (erase t) = true.
+Proof.
+  induction t as [n|n|n cs IH|t IH] using ty_ind'; simpl; auto.
+  intro H. rewrite forallb_forall in H. apply forallb_forall. intros x Hx.
+  apply in_map_iff in Hx. destruct Hx as [y [<- Hy]]. simpl.
+  rewrite Forall_forall in IH. apply IH; auto.
+Qed.
+
+Lemma spec_list_supported dyn l : Forall (fun c => forall tr, fst (spec dyn (snd c) tr) = COk) l ->
+  forall tr, fst (spec_list dyn l tr) = COk.
+Proof.
+  induction 1 as [|[reach u] l Hu _ IH]; intro tr; simpl; [reflexivity|].
+  destruct reach; [|apply IH]. simpl in Hu. specialize (Hu tr).
+  destruct (spec dyn u tr) as [r tr']. simpl in Hu. subst r. apply IH.
+Qed.
+
+Lemma spec_supported dyn : forall t, supported t = true -> forall tr, fst (spec dyn t tr) = COk.
+Proof.
+  induction t as [n|n|n cs IH|t IH] using ty_ind'; intros S tr.
+  - reflexivity.
+  - discriminate.
+  - rewrite spec_comp_unfold. apply spec_list_supported. simpl in S. rewrite forallb_forall in S.
+    rewrite Forall_forall in *. intros x Hx. apply IH; auto.
+  - simpl in *. destruct dyn; [|reflexivity]. rewrite supported_erase by exact S. apply IH, S.
+Qed.
+
+Lemma cache_call_step dyn c t : CInv c -> supported t = true -> CInv (fst (cache_call dyn c t)).
+Proof.
+  intros G S. unfold cache_call.
+  pose proof (gen_all_ok t c [] G (fun p (F : In p []) => match F with end)) as [E1 [O1 R1]].
+  destruct (gen c t) as [c1 ok] eqn:Eg. simpl in E1, O1, R1. subst ok.
+  rewrite supported_erase in * by exact S.
+  destruct (R1 eq_refl) as [G1 P1]. destruct (visit_all_ok dyn t c1 [] G1 P1) as [E2 R2].
+  pose proof (spec_supported dyn t S []) as Ok.
+  destruct (visit dyn c1 t []) as [[c2 r] tr]. simpl in *. rewrite <- E2 in Ok. simpl in Ok.
+  apply R2, Ok.
+Qed.
+
+Definition all_supported (t : ty) : Prop := supported t = true.
+
+Lemma cache_reuse_when dyn h t : Forall all_supported h ->
+  run_reused cache_init (cache_call dyn) h t = run_fresh cache_init (cache_call dyn) t.
+Proof.
+  apply (reuse_eq_fresh_when cache_init (cache_call dyn) CInv all_supported).
+  - exact CInv_init.
+  - intros s op G. rewrite (cache_call_obs dyn s op G), (cache_call_obs dyn cache_init op CInv_init). reflexivity.
+  - intros s op G S. apply cache_call_step; assumption.
+Qed.
+
+(* an unsupported type, then the same type again: the second call blocks forever *)
+Lemma cache_refuted dyn : exists h t,
+  run_reused cache_init (cache_call dyn) h t <> run_fresh cache_init (cache_call dyn) t.
+Proof. exists [TBad 1], (TBad 1). destruct dyn; vm_compute; discriminate. Qed.
+
+Example cache_refuted_hang :
+  run_reused cache_init (cache_call true) [TBad 1] (TBad 1) = (CHang, []) /\
+  run_fresh cache_init (cache_call true) (TBad 1) = (CErr, []).
+Proof. vm_compute. split; reflexivity. Qed.
+
+(* ... and a type that merely contains it is then accepted instead of refused *)
+Example cache_refuted_accepts :
+  run_reused cache_init (cache_call false) [TBad 1] (TComp 2 [(true, TLeaf 3); (false, TBad 1)]) = (COk, [2; 3]) /\
+  run_fresh cache_init (cache_call false) (TComp 2 [(true, TLeaf 3); (false, TBad 1)]) = (CErr, []).
+Proof. vm_compute. split; reflexivity. Qed.
+
+(* ------------------------------------------------------------------ *)
+(* 4. CTE encoder context                                               *)
+(* ------------------------------------------------------------------ *)
+
+(* decorators whose EndContainer reads ContainerHasObjects *)
+Definition reads_has (d : deco) : bool :=
+  match d with DList | DMapKey | DMapValue | DEdge | DNodeChildren => true | _ => false end.
+Definition needs_has (k : list deco) : bool := existsb reads_has k.
+
+Definition sh (h : bool) (w : cw) : cw := (set_has (fst w) h, snd w).
+
+Ltac dw := repeat match goal with
+  | w : cw |- _ => destruct w as [[? ? ? ?] ?]
+  | s : cte_state |- _ => destruct s as [? ? ? ?]
+  end.
+
+Lemma sh_wr h b w : wr b (sh h w) = sh h (wr b w).
+Proof. dw; reflexivity. Qed.
+Lemma sh_wr_nocol h b w : wr_nocol b (sh h w) = sh h (wr_nocol b w).
+Proof. dw; reflexivity. Qed.
+Lemma sh_wr_lf h w : wr_lf (sh h w) = sh h (wr_lf w).
+Proof. dw; reflexivity. Qed.
+Lemma sh_wr_plf h b w : wr_possible_lf b (sh h w) = sh h (wr_possible_lf b w).
+Proof. dw; unfold wr_possible_lf; simpl; destruct (after_last_lf b); reflexivity. Qed.
+Lemma sh_nl h w : newline_origin_indent (sh h w) = sh h (newline_origin_indent w).
+Proof. dw; reflexivity. Qed.
+Lemma sh_iio h w : indent_if_origin (sh h w) = sh h (indent_if_origin w).
+Proof. dw; unfold indent_if_origin, at_origin, origin_pos; simpl; destruct (_ =? _)%Z; reflexivity. Qed.
+Lemma sh_rto h w : return_to_origin (sh h w) = sh h (return_to_origin w).
+Proof. dw; unfold return_to_origin, at_origin, origin_pos; simpl; destruct (_ =? _)%Z; reflexivity. Qed.
+Lemma sh_push h d w : push d (sh h w) = sh h (push d w).
+Proof. dw; reflexivity. Qed.
+Lemma sh_indent_more h w : indent_more (sh h w) = sh h (indent_more w).
+Proof. dw; reflexivity. Qed.
+Lemma sh_unstack h w : unstack (sh h w) = option_map (sh h) (unstack w).
+Proof. dw; unfold unstack; simpl. destruct cs_stack as [|? [|? ?]]; reflexivity. Qed.
+Lemma sh_switch h d w : switch d (sh h w) = option_map (sh h) (switch d w).
+Proof. dw; unfold switch; simpl. destruct cs_stack; reflexivity. Qed.
+Lemma sh_indent_less h w : indent_less (sh h w) = option_map (sh h) (indent_less w).
+Proof. dw; unfold indent_less; simpl. destruct (_ =? 0); reflexivity. Qed.
+Lemma sh_mark h x w : mark_has x (sh h w) = mark_has x w.
+Proof. dw; reflexivity. Qed.
+Lemma sh_top h w : top (fst (sh h w)) = top (fst w).
+Proof. dw; reflexivity. Qed.
+Lemma sh_before_value h w : before_value (sh h w) = option_map (sh h) (before_value w).
+Proof.
+  unfold before_value. rewrite sh_top. destruct (top (fst w)) as [[]|]; simpl;
+    rewrite ?sh_nl, ?sh_iio; reflexivity.
+Qed.
+Lemma sh_before_comment h w : before_comment (sh h w) = option_map (sh h) (before_comment w).
+Proof.
+  unfold before_comment. rewrite sh_top. destruct (top (fst w)) as [[]|]; simpl;
+    rewrite ?sh_nl; reflexivity.
+Qed.
+Lemma sh_after_comment h w : after_comment (sh h w) = after_comment w.
+Proof.
+  unfold after_comment. rewrite sh_top. destruct (top (fst w)) as [[]|]; simpl;
+    rewrite ?sh_nl, ?sh_rto, ?sh_mark; reflexivity.
+Qed.
+
+Lemma sh_after_value h : forall f w, after_value f (sh h w) = after_value f w.
+Proof.
+  induction f as [|f IH]; intro w; [reflexivity|]. cbn [after_value]. rewrite sh_top.
+  destruct (top (fst w)) as [[]|]; try reflexivity; try (rewrite sh_mark; reflexivity).
+  - rewrite sh_wr, sh_switch. destruct (switch _ _); simpl; [rewrite sh_mark|]; reflexivity.
+  - rewrite sh_switch. destruct (switch _ _); simpl; [rewrite sh_mark|]; reflexivity.
+  - rewrite sh_unstack. destruct (unstack w); simpl; [rewrite IH|]; reflexivity.
+  - rewrite sh_switch. destruct (switch _ _); simpl; [rewrite sh_mark|]; reflexivity.
+Qed.
+
+Lemma sh_fuel h w : after_value_fuel (sh h w) = after_value_fuel w.
+Proof. dw; reflexivity. Qed.
+Lemma sh_after_val h w : after_val (sh h w) = after_val w.
+Proof. unfold after_val. rewrite sh_fuel. apply sh_after_value. Qed.
+
+Lemma before_value_stack w w1 : before_value w = Some w1 -> cs_stack (fst w1) = cs_stack (fst w).
+Proof.
+  unfold before_value. destruct (top (fst w)) as [[]|]; intro H; inversion H; subst; clear H; dw; try reflexivity.
+  unfold indent_if_origin. destruct (at_origin _); reflexivity.
+Qed.
+
+Lemma obind_sh {B} h (o : option cw) (f g : cw -> option B) :
+  (forall w, f (sh h w) = g w) -> obind (option_map (sh h) o) f = obind o g.
+Proof. intro H. destruct o; simpl; auto. Qed.
+
+Lemma top_needs s : needs_has (cs_stack s) = false ->
+  top s = None \/ top s = Some DTop \/ top s = Some DConcat \/ top s = Some DNodeValue.
+Proof.
+  unfold top, needs_has. destruct (cs_stack s) as [|[] k]; simpl; auto; discriminate.
+Qed.
+
+Lemma cte_event_has s h e : needs_has (cs_stack s) = false ->
+  cte_event (set_has s h) e = cte_event s e \/
+  (cte_event (set_has s h) e = option_map (sh h) (cte_event s e) /\
+   forall w, cte_event s e = Some w -> needs_has (cs_stack (fst w)) = false).
+Proof.
+  intro Hn.
+  assert (Sh : (set_has s h, @nil N) = sh h (s, @nil N)) by reflexivity.
+  destruct e; unfold cte_event; cbv zeta; rewrite ?Sh.
+  - (* CBegin *) right. split; [destruct s; reflexivity|]. intros w E. inversion E; subst. destruct s; reflexivity.
+  - (* CVersion *) right. rewrite sh_wr_nocol, sh_nl. split; [reflexivity|].
+    intros w E. inversion E; subst. destruct s; exact Hn.
+  - right. split; [reflexivity|]. intros w E. inversion E; subst. exact Hn.
+  - right. split; [reflexivity|]. intros w E. inversion E; subst. exact Hn.
+  - (* CComment *) left. rewrite sh_before_comment. apply obind_sh. intro w.
+    destruct multi; rewrite ?sh_wr, ?sh_wr_plf, ?sh_wr, sh_after_comment; reflexivity.
+  - left. rewrite sh_before_value. apply obind_sh. intro w. rewrite sh_wr, sh_after_val. reflexivity.
+  - left. rewrite sh_before_value. apply obind_sh. intro w. rewrite sh_wr, sh_after_val. reflexivity.
+  - left. rewrite sh_before_value. apply obind_sh. intro w. rewrite sh_wr, sh_after_val. reflexivity.
+  - left. rewrite sh_before_value. apply obind_sh. intro w. rewrite sh_wr_nocol, sh_after_val. reflexivity.
+  - left. unfold open_container. rewrite sh_before_value. apply obind_sh. intro w. rewrite sh_mark. reflexivity.
+  - left. unfold open_container. rewrite sh_before_value. apply obind_sh. intro w. rewrite sh_mark. reflexivity.
+  - left. unfold open_container. rewrite sh_before_value. apply obind_sh. intro w. rewrite sh_mark. reflexivity.
+  - (* CNode *) right. unfold open_container. rewrite sh_before_value. split.
+    + destruct (before_value (s, [])) as [w1|]; simpl; [|reflexivity].
+      rewrite sh_wr, sh_indent_more, sh_push. reflexivity.
+    + intros w E. destruct (before_value (s, [])) as [w1|] eqn:B; simpl in E; [|discriminate].
+      inversion E; subst. apply before_value_stack in B. simpl in B. dw. simpl in *. subst. exact Hn.
+  - (* CEndContainer *) unfold end_container. rewrite sh_top. simpl fst.
+    destruct (top_needs s Hn) as [T|[T|[T|T]]]; rewrite T; auto.
+    right. split; [reflexivity|]. intros w E. inversion E; subst. exact Hn.
+  - (* CMarker *) right. rewrite sh_before_value. split.
+    + destruct (before_value (s, [])) as [w1|]; simpl; [|reflexivity].
+      rewrite !sh_wr, sh_push. reflexivity.
+    + intros w E. destruct (before_value (s, [])) as [w1|] eqn:B; simpl in E; [|discriminate].
+      inversion E; subst. apply before_value_stack in B. simpl in B. dw. simpl in *. subst. exact Hn.
+  - left. rewrite sh_before_value. apply obind_sh. intro w. rewrite !sh_wr, sh_after_val. reflexivity.
+Qed.
+
+Definition cte_rel (s1 s2 : cte_state) : Prop :=
+  cs_indent s1 = cs_indent s2 /\ cs_stack s1 = cs_stack s2 /\ cs_column s1 = cs_column s2 /\
+  (needs_has (cs_stack s1) = true -> cs_has_objects s1 = cs_has_objects s2).
+
+Lemma cte_rel_refl s : cte_rel s s.
+Proof. repeat split; auto. Qed.
+
+Lemma cte_rel_cases s1 s2 : cte_rel s1 s2 ->
+  s1 = s2 \/ (needs_has (cs_stack s1) = false /\ s2 = set_has s1 (cs_has_objects s2)).
+Proof.
+  intros [Hi [Hk [Hc Hh]]]. destruct (needs_has (cs_stack s1)) eqn:N.
+  - left. specialize (Hh eq_refl). destruct s1, s2; simpl in *; subst; reflexivity.
+  - right. split; [reflexivity|]. destruct s1, s2; simpl in *; subst; reflexivity.
+Qed.
+
+Lemma cte_rel_sh s h : needs_has (cs_stack s) = false -> cte_rel s (set_has s h).
+Proof. intro N. destruct s; simpl in *. repeat split; simpl; auto. rewrite N. discriminate. Qed.
+
+Definition cte_step_rel (x y : option cw) : Prop :=
+  match x, y with
+  | Some (a, o1), Some (b, o2) => cte_rel a b /\ o1 = o2
+  | None, None => True
+  | _, _ => False
+  end.
+
+Lemma cte_step_rel_refl x : cte_step_rel x x.
+Proof. destruct x as [[a o]|]; simpl; auto using cte_rel_refl. Qed.
+
+Lemma cte_event_rel s1 s2 e : cte_rel s1 s2 -> cte_step_rel (cte_event s1 e) (cte_event s2 e).
+Proof.
+  intro R. destruct (cte_rel_cases s1 s2 R) as [->|[N E]]; [apply cte_step_rel_refl|].
+  rewrite E. destruct (cte_event_has s1 (cs_has_objects s2) e N) as [->|[-> K]].
+  - apply cte_step_rel_refl.
+  - destruct (cte_event s1 e) as [[a o]|] eqn:Ev; simpl; [|exact I].
+    split; [|reflexivity]. apply cte_rel_sh. exact (K _ eq_refl).
+Qed.
+
+Lemma cte_run_rel es : forall s1 s2 i out, cte_rel s1 s2 ->
+  snd (cte_run s1 i es out) = snd (cte_run s2 i es out).
+Proof.
+  induction es as [|e es IH]; intros s1 s2 i out R; simpl; [reflexivity|].
+  pose proof (cte_event_rel s1 s2 e R) as S. unfold cte_step_rel in S.
+  destruct (cte_event s1 e) as [[a o1]|], (cte_event s2 e) as [[b o2]|]; try contradiction.
+  - destruct S as [S1 S2]. subst o2. apply IH. exact S1.
+  - reflexivity.
+Qed.
+
+(* OnBeginDocument (Begin) followed by OnVersion brings every context to the same
+   state up to ContainerHasObjects, which no decorator on the new stack reads *)
+Lemma cte_header_rel s v :
+  exists a b o, cte_event s CBegin = Some (a, [99]) /\ cte_event a (CVersion v) = Some (b, o) /\
+    o = dec v ++ [10] /\
+    cs_indent b = 0 /\ cs_stack b = [DTop] /\ cs_column b = 0%Z.
+Proof.
+  destruct s as [i k hs c]. eexists. eexists. eexists. split; [reflexivity|]. split; [reflexivity|].
+  simpl. repeat split. apply app_nil_r.
+Qed.
+
+Lemma cte_run_cons s i e r out :
+  cte_run s i (e :: r) out =
+  match cte_event s e with
+  | Some (s1, b) => cte_run s1 (N.succ i) r (out ++ b)
+  | None => (s, (Some i, out))
+  end.
+Proof. reflexivity. Qed.
+
+Definition has_header (es : list cev) : Prop := exists v rest, es = CBegin :: CVersion v :: rest.
+
+Lemma cte_obs_any s es : has_header es -> snd (cte_call s es) = snd (cte_call cte_init es).
+Proof.
+  intros [v [rest ->]]. unfold cte_call.
+  destruct (cte_header_rel s v) as [a [b [o [E1 [E2 [Eo [Bi [Bk Bc]]]]]]]].
+  destruct (cte_header_rel cte_init v) as [a' [b' [o' [E1' [E2' [Eo' [Bi' [Bk' Bc']]]]]]]].
+  rewrite !(cte_run_cons s), E1, cte_run_cons, E2.
+  rewrite !(cte_run_cons cte_init), E1', cte_run_cons, E2'.
+  subst o o'. apply cte_run_rel. unfold cte_rel. rewrite Bi, Bi', Bk, Bk', Bc, Bc'.
+  repeat split. simpl. discriminate.
+Qed.
+
+Lemma cte_reuse h es : has_header es ->
+  run_reused cte_init cte_call h es = run_fresh cte_init cte_call es.
+Proof. intro H. unfold run_reused, run_fresh. apply cte_obs_any, H. Qed.
+
+(* a stream that does not begin with OnBeginDocument runs on whatever the previous document left *)
+Lemma cte_refuted : exists h es,
+  run_reused cte_init cte_call h es <> run_fresh cte_init cte_call es.
+Proof. exists [[CBegin; CVersion 0; CList]], [CVersion 0; CNull]. vm_compute. discriminate. Qed.
